@@ -12,6 +12,8 @@ InitSparse ==
   /\ k1 \in (IF g1 = 0 THEN {0} ELSE 2..Len(GapKinds))
   /\ IF Mode = "pairs" /\ g1 > 0 THEN g2 \in (g1 + 1)..NTokens(tp) /\ k2 \in 2..Len(GapKinds) ELSE g2 = 0 /\ k2 = 0
   /\ g1 # 1
+  \* comment blocks (kinds 9..) stand above statements only
+  /\ (k1 >= 9 => Starts(Templates[tp], 1)[g1]) /\ (k2 >= 9 => Starts(Templates[tp], 1)[g2])
 \* dense: g1 = stride, g2 = offset, k1 = the gap kind, k2 = a second kind used at every other selected position (0: none)
 InitDense ==
   /\ tp \in 1..Len(Templates)
